@@ -328,6 +328,13 @@ func ruleC04R2(c *Ctx) {
 		}
 		// rename only after a nil-error write: blocked when the write path failed
 	}
+	// publish authority: a name in the queue directory comes into being only through WriteFileAt's rename (after write and
+	// close). Any other rename / link — "complete an interrupted save at start", "rotate" — can put a file under a chunk
+	// id that did not go through that sequence
+	pub := extPred("os.Rename", "os.Link", "os.Symlink", "syscall.Rename", "syscall.Renameat", "syscall.Link",
+		"golang.org/x/sys/unix.Rename", "golang.org/x/sys/unix.Renameat", "golang.org/x/sys/unix.Renameat2", "golang.org/x/sys/unix.Link", "golang.org/x/sys/unix.Linkat", "golang.org/x/sys/unix.Symlink", "golang.org/x/sys/unix.Symlinkat")
+	nPub := len(c.whoMayCall("C04.R2", "a rename / link primitive", pub, aWriteFileAt))
+	c.floor("C04.R2", "rename / link sites", nPub, 1)
 	pos := fn.Pos()
 	if len(good) > 0 {
 		pos = good[0].Pos()
